@@ -372,6 +372,22 @@ func (e *evaluator) path(v ssa.Value) string {
 		if t, ok := e.env[x]; ok {
 			return t.String()
 		}
+		// a local that holds a value record returned by an expanded helper (at := addrOf(i)): the record
+		if x.Referrers() != nil {
+			var rec *term
+			n := 0
+			for _, ref := range *x.Referrers() {
+				if st, ok := ref.(*ssa.Store); ok && st.Addr == ssa.Value(x) {
+					n++
+					if t, ok := e.env[st.Val]; ok && t.op == "sym" && strings.HasPrefix(t.name, "rec:") {
+						rec = t
+					}
+				}
+			}
+			if n == 1 && rec != nil {
+				return rec.name
+			}
+		}
 		// a local copy of a record loaded from memory once (b := xs[i]; b.f): name it by its source
 		if src := soleCopySource(x); src != nil {
 			return e.path(src)
@@ -623,6 +639,11 @@ func (e *evaluator) eval1(v ssa.Value) *term {
 			pth := e.path(x.X)
 			if v, ok := e.recFields[pth]; ok {
 				return v
+			}
+			if fa, ok := x.X.(*ssa.FieldAddr); ok {
+				if v := e.constructedField(fa); v != nil {
+					return v
+				}
 			}
 			return S(pth)
 		case token.SUB:
@@ -956,12 +977,22 @@ func (e *evaluator) inline(c *ssa.Call) []*term {
 		return nil
 	}
 	for _, in := range callee.Blocks[0].Instrs {
-		switch in.(type) {
-		case *ssa.Store, *ssa.MapUpdate, *ssa.Panic, *ssa.Defer, *ssa.Go:
+		switch x := in.(type) {
+		case *ssa.Store:
+			// a by-value record parameter spilled to the stack is not an effect
+			if _, isAl := x.Addr.(*ssa.Alloc); isAl {
+				if prm, isPrm := x.Val.(*ssa.Parameter); isPrm {
+					if _, isStruct := prm.Type().Underlying().(*types.Struct); isStruct {
+						continue
+					}
+				}
+			}
+			return nil
+		case *ssa.MapUpdate, *ssa.Panic, *ssa.Defer, *ssa.Go:
 			return nil
 		}
 	}
-	sub := &evaluator{p: e.p, env: map[ssa.Value]*term{}, cache: map[ssa.Value]*term{}, depth: e.depth + 1}
+	sub := &evaluator{p: e.p, env: map[ssa.Value]*term{}, cache: map[ssa.Value]*term{}, depth: e.depth + 1, recFields: e.recFields}
 	for i, prm := range callee.Params {
 		if i >= len(c.Call.Args) {
 			return nil
@@ -971,6 +1002,23 @@ func (e *evaluator) inline(c *ssa.Call) []*term {
 			sub.env[prm] = e.eval(a)
 		} else {
 			sub.env[prm] = S(e.pathOrTerm(a))
+			// a constructed local record handed over by value: its fields travel with it
+			if st, isStruct := a.Type().Underlying().(*types.Struct); isStruct {
+				if ld, ok := a.(*ssa.UnOp); ok && ld.Op == token.MUL {
+					if al, ok := ld.X.(*ssa.Alloc); ok {
+						for fi := 0; fi < st.NumFields(); fi++ {
+							if v := e.constructedFieldOf(al, fi); v != nil {
+								nm := map[string]*term{}
+								for k, t := range sub.recFields {
+									nm[k] = t
+								}
+								nm[sub.env[prm].name+"."+st.Field(fi).Name()] = v
+								sub.recFields = nm
+							}
+						}
+					}
+				}
+			}
 		}
 	}
 	ret, ok := lastInstr(callee.Blocks[0]).(*ssa.Return)
@@ -1099,4 +1147,96 @@ func soleCopySource(al *ssa.Alloc) ssa.Value {
 		return nil
 	}
 	return src
+}
+
+// constructedField: fa addresses field k of a local record that is assigned exactly once, as a whole, the
+// result of a single-block constructor of the analysed packages ("at := addrOf(i)" with "func addrOf(i
+// int32) bitAddr { return bitAddr{word: i >> 6, bit: i & 63} }"): the term the constructor stores into
+// field k, with its parameters bound to the call's arguments.
+func (e *evaluator) constructedField(fa *ssa.FieldAddr) *term {
+	al, ok := fa.X.(*ssa.Alloc)
+	if !ok {
+		return nil
+	}
+	return e.constructedFieldOf(al, fa.Field)
+}
+
+func (e *evaluator) constructedFieldOf(al *ssa.Alloc, field int) *term {
+	if al.Referrers() == nil || e.depth > 3 {
+		return nil
+	}
+	var call *ssa.Call
+	n := 0
+	for _, ref := range *al.Referrers() {
+		switch x := ref.(type) {
+		case *ssa.Store:
+			if x.Addr == ssa.Value(al) {
+				n++
+				call, _ = x.Val.(*ssa.Call)
+			}
+		case *ssa.FieldAddr:
+			for _, r2 := range *x.Referrers() {
+				if st, ok := r2.(*ssa.Store); ok && st.Addr == ssa.Value(x) {
+					return nil // a field is assigned separately
+				}
+			}
+		}
+	}
+	if n != 1 || call == nil {
+		return nil
+	}
+	h := calleeOf(call)
+	if h == nil || !inAnalysed(h) || len(h.Blocks) != 1 {
+		return nil
+	}
+	ret, ok := lastInstr(h.Blocks[0]).(*ssa.Return)
+	if !ok || len(ret.Results) != 1 {
+		return nil
+	}
+	ld, ok := ret.Results[0].(*ssa.UnOp)
+	if !ok || ld.Op != token.MUL {
+		return nil
+	}
+	lit, ok := ld.X.(*ssa.Alloc)
+	if !ok {
+		return nil
+	}
+	sub := &evaluator{p: e.p, env: map[ssa.Value]*term{}, cache: map[ssa.Value]*term{}, depth: e.depth + 1, recFields: e.recFields}
+	for i, prm := range h.Params {
+		if i >= len(call.Call.Args) {
+			return nil
+		}
+		a := call.Call.Args[i]
+		if _, isBasic := a.Type().Underlying().(*types.Basic); isBasic {
+			sub.env[prm] = e.eval(a)
+		} else {
+			sub.env[prm] = S(e.pathOrTerm(a))
+		}
+	}
+	var val *term
+	stores := 0
+	for _, in := range h.Blocks[0].Instrs {
+		st, ok := in.(*ssa.Store)
+		if !ok {
+			continue
+		}
+		f2, ok := st.Addr.(*ssa.FieldAddr)
+		if !ok || f2.X != ssa.Value(lit) {
+			return nil // some other store: not a plain constructor
+		}
+		if f2.Field == field {
+			val = sub.eval(st.Val)
+			stores++
+		}
+	}
+	if stores == 1 {
+		return val
+	}
+	if stores == 0 {
+		// a field the literal does not mention
+		if st, ok := lit.Type().Underlying().(*types.Pointer).Elem().Underlying().(*types.Struct); ok && field < st.NumFields() && isIntType(st.Field(field).Type()) {
+			return K(0)
+		}
+	}
+	return nil
 }
